@@ -1239,7 +1239,8 @@ MANIFEST = {
             "ProtocolError and unchanged state for illegal messages), every pending request failed at "
             "session end (at the latest at transport loss when the user's onLeave skipped the base "
             "class), API calls after the end raise TransportLost or return an already failed result."
-            " ABORT counts among the handshake messages that are illegal once the session is established.",
+            " ABORT counts among the handshake messages that are illegal once the session is established."
+            " Every message kind but WELCOME/ABORT/CHALLENGE is probed again once the session has ended with the transport still there; every ending of a joined session with a call outstanding is repeated on the real WebSocket and RawSocket transports.",
     "note": "Trusted: ref/wamp_session.py Lifecycle, harness/wamp_l1.py (scripted transport keeps "
             "isOpen() true until the harness delivers onClose, as the real transports do). After a "
             "finished GOODBYE exchange or ABORT the router stays silent.",
